@@ -173,9 +173,17 @@ about to create), the EOD code and the zero padding of the last byte. -/
 theorem lzw_rt (clr : Nat → Bool) (x : Bytes) : lzwdecode (lzwEnc clr x) = .ok x :=
   lzwdecode_lzwEnc clr x
 
+/-- The byte-level bit reader (`readbits` with `buff`/`bpos`, as in the Python code) reads exactly the
+MSB-first bit sequence of the data: `LZWDecoder.run` on the reader state equals the loop on bits. -/
+theorem lzw_bit_view (data : Bytes) : lzwdecode data = lzwRun (8 * data.length + 1) lzwInit (bitsOf data) :=
+  lzwdecode_bits data
+
 /-- Non-vacuity: `aaaaaaa` exercises KwKwK twice; a Clear is inserted after the 2nd data code. -/
 example : lzwdecode (lzwEnc (fun n => n == 2) [97, 97, 97, 97, 97, 97, 97]) = .ok [97, 97, 97, 97, 97, 97, 97] := by
-  decide
+  decide +kernel
+/-- … and the decoder reads the ISO 32000-1 7.4.4.2 example. -/
+example : lzwdecode [0x80, 0x0B, 0x60, 0x50, 0x22, 0x0C, 0x0C, 0x85, 0x01]
+    = .ok [45, 45, 45, 45, 45, 65, 45, 45, 45, 66] := by decide +kernel
 /-- The encoder is the usual one: the example of ISO 32000-1 7.4.4.2 (`-----A---B`). -/
 example : lzwEnc (fun _ => false) [45, 45, 45, 45, 45, 65, 45, 45, 45, 66]
     = [0x80, 0x0B, 0x60, 0x50, 0x22, 0x0C, 0x0C, 0x85, 0x01] := by decide
@@ -343,8 +351,11 @@ theorem rldecode_fuel (data : Bytes) (k : Nat) : rldecodeAux (data.length + 1 + 
   rldecodeAux_fuel _ _ data (by omega) (by omega)
 
 theorem lzwdecode_fuel (data : Bytes) (k : Nat) :
-    lzwRun (8 * data.length + 1 + k) lzwInit (bitsOf data) = lzwdecode data :=
-  lzwRun_fuel _ _ lzwInit (bitsOf data) (by decide) (by rw [bitsOf_length]; omega) (by rw [bitsOf_length]; omega)
+    lzwRunB (8 * data.length + 1 + k) lzwInit data 0 8 = lzwdecode data := by
+  rw [lzwdecode_bits, lzwRunB_eq _ _ _ _ _ (Nat.le_refl 8)]
+  have hv : viewBits data 0 8 = bitsOf data := by simp [viewBits, bitsOfNat]
+  rw [hv]
+  exact lzwRun_fuel _ _ lzwInit (bitsOf data) (by decide) (by rw [bitsOf_length]; omega) (by rw [bitsOf_length]; omega)
 
 theorem png_fuel (nbytes bpp : Nat) (above data : Bytes) (k : Nat) :
     pngRows nbytes bpp (data.length + k) above data = pngRows nbytes bpp data.length above data :=
